@@ -295,6 +295,7 @@ def qa_sites(ctx: Ctx):
 def qa_partition(ctx: Ctx):
     """dense / sparse / continuous-choice selections partition the variables (C01, C12)."""
     prog = ctx.prog
+    ctx.exhaustive_note = "R2: selections compared on ALL variable classes of the universe read from get_variable_info (exhaustive)"
     uni = build_universe(prog)
     ctx.count("variable_classes", len(uni.rows))
     R = Roles(prog)
@@ -334,6 +335,7 @@ def qa_partition(ctx: Ctx):
 def qa_order(ctx: Ctx):
     """The canonical variable order is a partition with the precedences consumers need."""
     prog = ctx.prog
+    ctx.exhaustive_note = "R2: selections compared on ALL variable classes of the universe read from get_variable_info (exhaustive)"
     uni = build_universe(prog)
     fr = prog.frame(f"{UTIL}.get_variable_info")
     order = None
@@ -421,6 +423,7 @@ def qa_order(ctx: Ctx):
 def qa_siblings(ctx: Ctx):
     """Pairs of selections that must denote the same variables."""
     prog = ctx.prog
+    ctx.exhaustive_note = "R2: selections compared on ALL variable classes of the universe read from get_variable_info (exhaustive)"
     uni = build_universe(prog)
     R = Roles(prog)
 
@@ -552,6 +555,7 @@ def qa_siblings(ctx: Ctx):
 def qa_value_axes(ctx: Ctx):
     """axis_names == dense state axes; lookup/interpolation cover the states."""
     prog = ctx.prog
+    ctx.exhaustive_note = "R2: selections compared on ALL variable classes of the universe read from get_variable_info (exhaustive)"
     uni = build_universe(prog)
     R = Roles(prog)
     si = R.space_info_call()
@@ -650,6 +654,7 @@ def qa_stochastic_sets(ctx: Ctx):
 def qa_indexer_axes_are_labels(ctx: Ctx):
     """Every axis of the state indexer has a label translator (C14, C12)."""
     prog = ctx.prog
+    ctx.exhaustive_note = "R2: selections compared on ALL variable classes of the universe read from get_variable_info (exhaustive)"
     uni = build_universe(prog)
     R = Roles(prog)
     si = R.space_info_call()
